@@ -37,4 +37,11 @@ CHECKS["C02"] = dict(
     note="Accesses outside the memory are seen through guard pages, canary regions and full comparison of small memories; atomics and bulk-memory instructions are not in the alphabet yet; amd64 only.",
 )
 
+CHECKS["C04"] = dict(
+    technique="TLA+ model of linking (Link.tla: ImportMatch, shared objects, captured values, ordered segments) checked by TLC; enumerated and simulated histories over provider/consumer graphs replayed on both engines with the whole shared state observed through every instance after each step",
+    text="TLC enumerates every consumer declaration of a one-dimension-at-a-time lattice (memory and table limits against the CURRENT size, element type, global type and mutability, function signature, constant expressions reading a mutable global, in- and out-of-bounds data/element segments in both orders, ok/trapping/writing start functions) crossed with provider configurations and preceding/following operations of either instance, a focused family with two consumers instantiated from one compiled module exchanging function references through the shared table (call_indirect and return_call_indirect), and seeded longer walks; the driver builds the real modules, checks accept/reject against ImportMatch (one-directional where the property says 'only if'), and after every step reads the global, memory size and cells, table size and every slot's call target through each live instance and the host API and compares them with the model.",
+    design_ref="§4 C04",
+    note="Error text is not compared; latitude for documented wazero behaviour (out-of-bounds element segment ignored; table import minimum compared with the declared minimum) is explicit in the spec (may-field). Graphs have one provider and up to two consumers.",
+)
+
 NOT_YET = "check not built yet in this round (work in progress; see DESIGN.md §4)"
